@@ -529,11 +529,10 @@ SQB = dict(harness='harness/h_seq_ber.c', units=[SK + 'constr_SEQUENCE.c', SK + 
            link=[SK + 'ber_decoder.c', SK + 'ber_tlv_tag.c', SK + 'ber_tlv_length.c'], stubs=['stubs/bsearch.c'],
            fp_restrict=[(r'ber_decoder\)$', ['sv_ber']), (r'free_struct\)$', ['sv_free']), (r'compar$', ['_t2e_cmp'])], trusted=[STUBT, 'stubs/bsearch.c'])
 for _v, _n, _d in ((0, 11, 'SEQUENCE { a [0] OPTIONAL, b CHOICE OPTIONAL (untagged: tag2el/bsearch path), c [2] }'), (1, 11, 'SEQUENCE { a [0] OPTIONAL, c [2], ..., b CHOICE OPTIONAL }, unknown additions primitive')):
-    for _sz in range(0, _n + 1):
-        O(id='SEQUENCE_decode_ber.v%d.s%d' % (_v, _sz), props=['C04', 'C14'], kind='bounded', tier='experimental', entry='h_SEQUENCE_decode_ber',
-          functions=['SEQUENCE_decode_ber', 'ber_check_tags', 'ber_fetch_tag', 'ber_fetch_length', 'ber_skip_length', '_t2e_cmp', 'SEQUENCE_free'],
-          defines=['VF_V=%d' % _v, 'VF_N=%d' % _n, 'VF_SIZE=%d' % _sz], unwind=_n + 3, cbmc=['--unwindset', 'ber_skip_length:2', '--malloc-may-fail', '--malloc-fail-null', '--memory-leak-check'],
-          bound=_d + '; every input of exactly %d octets in an exact-size heap buffer; every allocation may fail' % _sz, min_props=80, timeout=1800, **SQB)
+    O(id='SEQUENCE_decode_ber.v%d' % _v, props=['C04', 'C14'], kind='bounded', tier='experimental', entry='h_SEQUENCE_decode_ber',
+      functions=['SEQUENCE_decode_ber', 'ber_check_tags', 'ber_fetch_tag', 'ber_fetch_length', 'ber_skip_length', '_t2e_cmp', 'SEQUENCE_free'],
+      defines=['VF_V=%d' % _v, 'VF_N=%d' % _n], unwind=9, cbmc=['--unwindset', 'ber_skip_length:2,ber_fetch_tag.0:%d,ber_fetch_length.0:%d,h_SEQUENCE_decode_ber.0:%d,h_SEQUENCE_decode_ber.1:%d,h_SEQUENCE_decode_ber.2:%d' % ((_n + 3,) * 5), '--malloc-may-fail', '--malloc-fail-null', '--memory-leak-check'],
+      bound=_d + '; every input of at most %d octets in an exact-size heap buffer; every allocation may fail (does not discharge: SAT back end out of memory, also with one obligation per input length)' % _n, min_props=80, timeout=1800, **SQB)
     O(id='SEQUENCE_decode_ber.chunk2.v%d' % _v, props=['C05', 'C03'], kind='bounded', tier='experimental' if _v else 'thorough', entry='h_SEQUENCE_decode_ber_chunked',
       functions=['SEQUENCE_decode_ber', 'ber_check_tags', 'ber_fetch_tag', 'ber_fetch_length', 'ber_skip_length', '_t2e_cmp'],
       defines=['VF_V=%d' % _v, 'VF_N=%d' % _n], unwind=9, cbmc=['--unwindset', 'ber_skip_length:2,ber_fetch_tag.0:%d,ber_fetch_length.0:%d,h_SEQUENCE_decode_ber_chunked.0:%d,h_SEQUENCE_decode_ber_chunked.1:%d' % ((_n + 3,) * 4), '--no-malloc-may-fail'],
@@ -678,6 +677,12 @@ O(id='time_helpers.grid', props=['C17'], kind='native', harness='harness/time_gr
   functions=['asn_time2GT', 'asn_time2GT_frac', 'asn_GT2time', 'asn_GT2time_frac', 'asn_time2UT', 'asn_UT2time'], no_canary=True,
   bound='native grid with the C library calendar: 10 POSIX time zones (offsets -12:00 .. +14:00 incl. -9:30, -3:30, +5:30, +5:45, +9:30, with and without DST) x every day 1902..2106 x 8 second offsets + 20000 VERIF_SEED-driven random time_t per zone; canonical text and round trip, UTCTime within 1960..2059',
   timeout=900)
+
+# modular variant: calls of ber_fetch_tag are replaced by its (separately enforced, unbounded) contract
+O(id='SEQUENCE_decode_ber.chunk2.v0.mod', props=['C05', 'C03'], kind='bounded', tier='experimental', entry='h_SEQUENCE_decode_ber_chunked',
+  functions=['SEQUENCE_decode_ber', 'ber_check_tags', 'ber_fetch_length', '_t2e_cmp'], replace=['ber_fetch_tag'], include=['contracts/ber_tlv_tag.h'],
+  defines=['VF_V=0', 'VF_N=11', 'VF_MOD=1'], unwind=9, cbmc=['--unwindset', 'ber_skip_length:2,ber_fetch_length.0:14,h_SEQUENCE_decode_ber_chunked.0:14,h_SEQUENCE_decode_ber_chunked.1:14', '--no-malloc-may-fail'],
+  bound='as SEQUENCE_decode_ber.chunk2.v0', min_props=80, timeout=1800, **SQB)
 
 for _o in OBLIGATIONS:
     if _o.get('enforce') and _o.get('kind') in ('enforce', 'width') and _o.get('tier') == 'quick' and 'C19' not in _o['props']:
